@@ -9,10 +9,16 @@ def make_model(model_name, cfg, Ms=None):
     Ms = Ms or models()
     c = dict(cfg)
     c.pop("_defaults", None)
+    if c.pop("_modelsub", False):
+        from .util import user_subclass
+
+        return_cls = user_subclass(Ms[model_name])
+    else:
+        return_cls = Ms[model_name]
     g = c.pop("gamma", "default")
     if GAMMAS[g] is not None:
         c["gamma"] = GAMMAS[g]
-    return Ms[model_name](**c)
+    return return_cls(**c)
 
 
 def in_box(cfg, teams):
